@@ -69,3 +69,12 @@ structure EmbedAtoms where
   twAnchorRoot : String → Bool    -- on the absolutised href of the last anchor
   tweetIdFromUrl : String
 end Distill
+
+namespace Distill
+/-- what the OpenGraph parser has collected when it decides whether it is usable -/
+structure OgAtoms where
+  title : String
+  type : String
+  url : String
+  nImages : Int
+end Distill
